@@ -23,7 +23,7 @@
 struct inputs {
         uint32_t text, time, xflags, os, hcrc, flags, extra_buf_len;
         uint32_t total_out;
-        uint32_t crc_ret[4];
+        uint32_t crc_ret[6];
         uint8_t extra[NZ(EXTRA)];
         uint8_t name[NZ(NAMEB)];
         uint8_t comment[NZ(COMMB)];
@@ -33,7 +33,7 @@ struct inputs {
 struct inputs {
         uint32_t info, level, dict_id, dict_flag;
         uint32_t total_out;
-        uint32_t crc_ret[4];
+        uint32_t crc_ret[6];
         uint8_t out0[NZ(AVAIL)];
 };
 #endif
